@@ -287,7 +287,25 @@ def strategy(tier):
                 elif form == 'list':
                     idx = {'a': [draw(st.integers(-n0, n0 - 1)) for _ in range(draw(st.integers(1, 2)))], 'list': True}
                 else:
-                    idx = {'t': [{'i': draw(st.integers(-e, e - 1))} if draw(st.booleans()) else {'s': [None, None, None]} for e in shape]}
+                    # tuple of per-dimension entries: int, full slice, bounded slice, and at most one index list
+                    parts = []
+                    used_list = False
+                    for e in shape:
+                        kind = draw(st.sampled_from(['int', 'full', 'slice', 'list']))
+                        if kind == 'list' and used_list:
+                            kind = 'full'
+                        if kind == 'int':
+                            parts.append({'i': draw(st.integers(-e, e - 1))})
+                        elif kind == 'full':
+                            parts.append({'s': [None, None, None]})
+                        elif kind == 'slice':
+                            a = draw(st.integers(0, e - 1))
+                            parts.append({'s': [a, draw(st.integers(a + 1, e)), None]})
+                        else:
+                            used_list = True
+                            k2 = draw(st.integers(1, 2))
+                            parts.append({'a': draw(st.lists(st.integers(0, e - 1), min_size=k2, max_size=k2, unique=True)), 'list': True})
+                    idx = {'t': parts}
                 r = np.zeros(shape)[dec(idx)]
                 if np.asarray(r).size == 0:
                     idx = None
